@@ -99,7 +99,7 @@ class C15(Prop):
             'Hypothesis draws the ORDER of the equations (outer first / inner later / chains); the clause p(X) :- eqs is '
             'queried directly, through findall/3, and through assert-then-read; an API-level variant opens the same '
             'equations as nested unify generators; a long-list variant builds lists of 20-160 elements through recursive '
-            'predicates (copy, append, counting) so that every tail is bound one level later. At each answer reify(get_value(v)) must equal R\'s answer and '
+            'predicates (copy, append, counting) so that every tail is bound one level later; a big-answer variant (30-1500 elements of a list, or levels of a chain f(e0, f(e1, ...)), bound after the outer structure) asks for the answer through X.get_value() / get_value(X) / to_python(X) / evaluate_bounded with 120-3000 Python frames left: it is delivered completely (no engine variable inside, the same term after the query ended) or not at all (RecursionError, dropped by evaluate_bounded). At each answer reify(get_value(v)) must equal R\'s answer and '
             'to_python(v) the specified Python image; the objects returned by get_value are SAVED, the generator is '
             'advanced or closed, and the saved objects are re-inspected without dereferencing: a ground answer must still '
             'denote the same term and contain no Variable at any depth. Non-trivial = some variable inside a structure '
@@ -124,8 +124,13 @@ class C15(Prop):
         while pool:
             order.append(pool.pop(src.n(len(pool))))
         eqs = [eqs[i] for i in order]
-        mode = src.pick(['direct', 'direct', 'findall', 'assert', 'api', 'long-list'])
-        return {'eqs': eqs, 'mode': mode, 'close_after': src.n(3), 'multi_form': src.n(3), 'n': src.pick([20, 60, 99, 100, 101, 130, 160])}
+        mode = src.pick(['direct', 'direct', 'findall', 'assert', 'api', 'long-list', 'big-answer'])
+        case = {'eqs': eqs, 'mode': mode, 'close_after': src.n(3), 'multi_form': src.n(3), 'n': src.pick([20, 60, 99, 100, 101, 130, 160])}
+        if mode == 'big-answer':
+            # an answer whose expansion may need more Python stack than is left when it is asked for
+            case.update(n=src.pick([30, 80, 150, 300, 450, 700, 1500]), margin=src.pick([120, 200, 400, 1000, 3000]),
+                        route=src.pick(['X.get_value()', 'get_value(X)', 'to_python(X)', 'evaluate_bounded']), shape=src.pick(['list', 'list', 'chain']))
+        return case
 
     def sample_view(self, case):
         return {'equations_in_order': ['%s %s %s' % (show(tt(a)), '=' if k == 'eq' else 'in {z,', show(tt(b)) + ('' if k == 'eq' else '}')) for k, a, b in case['eqs']],
@@ -191,6 +196,8 @@ class C15(Prop):
             return self.decide_api(eqs, detail, classes, nt)
         if mode == 'long-list':
             return self.decide_long(case, detail)
+        if mode == 'big-answer':
+            return self.decide_big(case, detail)
         text = C.plain_text(clauses)
         detail['text'] = text
         comp = C.compile_case(text)
@@ -312,6 +319,105 @@ class C15(Prop):
         except RecursionError:
             return FAIL('exception:RecursionError', dict(detail, n=n))
         return OK(True, ['mode:long-list', 'length:%d' % n, 'ground-answer-rechecked-after-backtracking'])
+
+    def decide_big(self, case, detail):
+        """an answer of n elements (a list whose elements, or a chain f(f(...)) whose levels, are bound AFTER the outer
+        structure) is asked for with `margin` Python frames left: it is delivered completely - no engine variable inside,
+        the same term after the query has ended - or not at all (RecursionError; evaluate_bounded drops it)"""
+        import sys
+        from yldprolog.engine import unify
+        n, margin, route, shape = case['n'], case['margin'], case['route'], case['shape']
+        detail = dict(detail, n=n, frames_left=margin, route=route, shape=shape)
+        detail.pop('equations_in_order', None)
+        yp = impl.YP()
+        X = yp.variable()
+        names = ['e%d' % i for i in range(n)]
+        if shape == 'list':
+            elems = [yp.variable() for _ in range(n)]
+            pairs = [(X, yp.makelist(elems)), (yp.functor('t', elems), yp.functor('t', [yp.atom(s) for s in names]))]
+        else:
+            vs = [X] + [yp.variable() for _ in range(n)]
+            pairs = [(vs[i], yp.functor('f', [yp.atom(names[i]), vs[i + 1]])) for i in range(n)] + [(vs[n], yp.atom('end'))]
+
+        def solutions():
+            def level(i):
+                if i == len(pairs):
+                    yield False
+                    return
+                for _ in unify(*pairs[i]):
+                    yield from level(i + 1)
+            if shape == 'list':
+                yield from level(0)
+            else:
+                # the chain's links are opened one after the other without recursion (n generators held in a list)
+                open_ = []
+                try:
+                    for a, b in pairs:
+                        g = iter(unify(a, b))
+                        next(g)
+                        open_.append(g)
+                    yield False
+                finally:
+                    for g in reversed(open_):
+                        g.close()
+
+        def depth():
+            f, d = sys._getframe(), 0
+            while f is not None:
+                f, d = f.f_back, d + 1
+            return d
+        project = {'X.get_value()': lambda: X.get_value(), 'get_value(X)': lambda: impl.get_value(X), 'to_python(X)': lambda: impl.to_python(X),
+                   'evaluate_bounded': lambda: X.get_value()}[route]
+        old = sys.getrecursionlimit()
+        answers = []
+        refused = False
+        q = solutions()
+        try:
+            if route == 'evaluate_bounded':
+                answers = yp.evaluate_bounded(q, lambda _: project(), recursion_limit=depth() + margin)
+            else:
+                for _ in q:
+                    sys.setrecursionlimit(depth() + margin)
+                    try:
+                        answers.append(project())
+                    finally:
+                        sys.setrecursionlimit(old)
+        except RecursionError:
+            refused = True
+        except Exception as e:      # noqa
+            sys.setrecursionlimit(old)
+            return FAIL('big-answer:exception:' + impl.exc_signature(e), dict(detail, error='%s: %s' % (type(e).__name__, str(e)[:200])))
+        finally:
+            sys.setrecursionlimit(old)
+            q.close()
+        if len(answers) > 1:
+            return FAIL('big-answer:%d-answers' % len(answers), detail)
+        for a in answers:
+            if route == 'to_python(X)':
+                want = names if shape == 'list' else None
+                if shape == 'list' and a != want:
+                    bad = [i for i, (g, w) in enumerate(zip(a, want)) if g != w] if isinstance(a, list) else []
+                    return FAIL('big-answer:to_python-incomplete', dict(detail, wrong_elements=len(bad), first_wrong=bad[:1], example=repr(a[bad[0]]) if bad else repr(a)[:80]))
+                continue
+            # iterative walk over the raw structure, no dereferencing: after the query ended
+            got, stack, nvars = [], [a], 0
+            while stack:
+                x = stack.pop()
+                if isinstance(x, impl.Variable):
+                    nvars += 1
+                elif isinstance(x, impl.Functor):
+                    stack.extend(reversed(x._args))
+                elif hasattr(x, 'name'):
+                    got.append(x.name())
+            if nvars:
+                return FAIL('big-answer:delivered-answer-contains-variables', dict(detail, variables=nvars))
+            want = [s for s in names] + (['[]'] if shape == 'list' else ['end'])
+            if got != want:
+                return FAIL('big-answer:delivered-answer-changed-after-the-query', dict(detail, atoms_found=len(got)))
+        if impl.to_python(X) is not None:
+            return FAIL('big-answer:query-variable-still-bound', detail)
+        cls = 'refused(RecursionError)' if refused else ('delivered' if answers else 'dropped-by-evaluate_bounded')
+        return OK(True, ['mode:big-answer', 'big-answer:' + cls, 'route:' + route, 'shape:' + shape])
 
     def decide_api(self, eqs, detail, classes, nt):
         from yldprolog.engine import unify
